@@ -243,6 +243,13 @@ theorem quo512_prec {a b y : Num} (ha : a.prec = 512) (hb : b.prec = 512) (hfa :
         · simp only [Res.ok.injEq] at h; subst h; right; rfl
         · simp only [Res.ok.injEq] at h; subst h; right; rfl
 
+theorem pow10Rounded_prec (k : Nat) :
+    (pow10Rounded k).isInf = true ∨ ((pow10Rounded k).prec = 512 ∧ (pow10Rounded k).isInf = false) := by
+  unfold pow10Rounded
+  cases pow5 k with
+  | fin _ _ _ _ => right; exact ⟨rfl, rfl⟩
+  | inf _ => left; rfl
+
 theorem parseUnsigned_prec {neg : Bool} {cs : List Char} {y : Num} (h : parseUnsigned neg cs = .ok y) :
     y.isInf = true ∨ y.prec = 512 := by
   simp only [parseUnsigned] at h
@@ -256,7 +263,18 @@ theorem parseUnsigned_prec {neg : Bool} {cs : List Char} {y : Num} (h : parseUns
       · split at h
         · simp only [Res.ok.injEq] at h; subst h; right; rfl
         · split at h
-          · simp at h
+          · split at h
+            · simp at h
+            · rename_i fr _ _ _ _ _ _
+              generalize hd : pow10Rounded fr.length = d at h
+              have hb := pow10Rounded_prec fr.length
+              rw [hd] at hb
+              rcases hb with hb | hb
+              · -- an infinite divisor: the quotient is a zero of precision 512
+                cases d with
+                | fin _ _ _ _ => simp [Num.isInf] at hb
+                | inf nb => simp only [Num.quo, Res.ok.injEq] at h; subst h; right; rfl
+              · exact quo512_prec rfl hb.1 rfl hb.2 h
           · exact quo512_prec rfl rfl rfl rfl h
     · split at h <;> simp at h
   · split at h <;> simp at h
